@@ -29,6 +29,15 @@ func pickRow(beta []byte, start int, want byte) int {
 	return start % n
 }
 
+// bigVectorLen: the multiplication's vector length l is only required to be positive by both
+// NewSuite constructors; one case in 12 uses 4..16 components instead of 1..3.
+func bigVectorLen(t *rapid.T, l int) int {
+	if rapid.IntRange(1, 12).Draw(t, "longVector") == 12 {
+		return rapid.SampledFrom([]int{4, 5, 8, 9, 16}).Draw(t, "lBig")
+	}
+	return l
+}
+
 // TestRVOLESoftspoken: drawn (curve, hash, l, input vector a with entries from {0,1,q-1,2,drawn},
 // Bob's choice vector beta {all-0, all-1, alternating, single, drawn}, seeds kind, seed); three
 // rounds through CBOR; oracle: c[i]+d[i] == a[i]*b mod q on math/big, b as output by Bob.Round1;
@@ -38,7 +47,7 @@ func TestRVOLESoftspoken(t *testing.T) {
 	vlib.Check(t, 48, func(t *rapid.T) {
 		c := genCurve(t)
 		h := genHash(t)
-		l := rapid.IntRange(1, 3).Draw(t, "l")
+		l := bigVectorLen(t, rapid.IntRange(1, 3).Draw(t, "l"))
 		a, ac := genInputs(t, c.order, l)
 		xi := xiSS(c.elemBits)
 		beta, bc := genChoices(t, "beta", xi)
@@ -64,7 +73,7 @@ func TestRVOLEBbot(t *testing.T) {
 	const test = "RVOLEBbot"
 	vlib.Check(t, 24, func(t *rapid.T) {
 		g := groupByName(rapid.SampledFrom([]string{"k256", "k256", "k256", "p256", "p256", "ed25519", "pallas"}).Draw(t, "group"))
-		l := rapid.IntRange(1, 3).Draw(t, "l")
+		l := bigVectorLen(t, rapid.IntRange(1, 3).Draw(t, "l"))
 		a, ac := genInputs(t, g.order, l)
 		xi := xiBbot(g.elemBits)
 		beta, bc := genChoices(t, "beta", xi)
